@@ -68,12 +68,12 @@ static void strreverse(char* begin, char* end)
 F8API size_t modp_dtoa(double value, char* str, int prec) // DD
 {
 	/* if input is larger than thres_max, revert to exponential */
-    const double thres_max = (double)(0x7FFFFFFF);
+    const double thres_max = 2147483648.0; /* 2^31 */
 
     double diff = 0.0;
     char* wstr = str;
 	int neg = 0;
-	int whole = 0;
+	int64_t whole = 0; /* rounding up 2147483647.5 must not overflow */
     double tmp = 0.0;
     uint32_t frac = 0;
 
@@ -102,7 +102,12 @@ F8API size_t modp_dtoa(double value, char* str, int prec) // DD
         value = -value;
     }
 
-    whole = (int) value;
+    /* for very large numbers switch back to native sprintf for exponentials
+       (before the integer conversion below, which would overflow) */
+    if (value >= thres_max)
+        return sprintf(str, "%e", neg ? -value : value); // DD
+
+    whole = (int64_t) value;
     tmp = (value - whole) * pow10_[prec];
     frac = (uint32_t)(tmp);
     diff = tmp - frac;
@@ -131,9 +136,6 @@ F8API size_t modp_dtoa(double value, char* str, int prec) // DD
       normal printf behavior is to print EVERY whole number digit
       which can be 100s of characters overflowing your buffers == bad
     */
-    if (value > thres_max)
-        return sprintf(str, "%e", neg ? -value : value); // DD
-
     if (prec == 0) {
         diff = value - whole;
         if (diff > 0.5) {
